@@ -3,11 +3,13 @@ CONSTANTS
   Senders = {s1}
   Probes = {x1, x2}
   Late = {x2}
-  MaxReq = 1
+  MaxReq = 0
   MaxAbandon = 0
   DirOf <- SameSide
   Kinds = {"cast"}
   Faults = {"exit", "cut"}
+  TagMode = "fresh"
+  ResolveMode = "bytag"
   MaxPg = 2
 INVARIANTS
   Ordered NoCrossWire TagsUnique AnsweredWasDelivered StoppedIsClean ProxyHasOriginal Mirrors
